@@ -216,3 +216,26 @@ package connect
 //@     invariant rangeindex >= 4 ==> timeout / 60000000000 >= 10000000
 //@     invariant rangeindex >= 5 ==> timeout / 3600000000000 >= 10000000
 //@     decreases 6 - rangeindex
+
+//@ func errorf(c, template, args) res
+//@   tags C02, C06, C10, C15
+//@   ensures fresh(res) && res.code == c && asErr(res) == res && dtypeIs(res, "*Error")            // label: coded
+//@   ensures forall t ref :: {Is(res, t)} !fresh(t) ==> (Is(res, t) <==> Is(fmtw(template, args), t))   // label: wraps-the-%w-operand
+
+// ---------------------------------------------------------------------------
+// handler-side timeouts (protocol_grpc.go, protocol_connect.go)
+// ---------------------------------------------------------------------------
+
+//@ func (*grpcHandler).SetTimeout(g, request) (ctx, cancel, err)
+//@   tags C10, C07
+//@   requires request != nil
+//@   ensures let h := hget(request.Header, "Grpc-Timeout") in gramT(h) && durT(h) <= 9223372036854775807 ==> err == nil && ctx == ctxWithTimeout(reqctx(request), durT(h))   // label: grammatical-honoured-exactly
+//@   ensures let h := hget(request.Header, "Grpc-Timeout") in h == "" || (gramT(h) && durT(h) > 9223372036854775807) ==> err == nil && ctx == reqctx(request) && cancel == nil   // label: absent-or-unrepresentable-is-unbounded
+//@   ensures let h := hget(request.Header, "Grpc-Timeout") in |h| >= 1 && (!isUnit(h[|h|-1]) || !isInt10(h[:|h|-1]) || (isNum10(h[:|h|-1]) && val10(h[:|h|-1]) > 99999999)) ==> err != nil && codeOf(err) == 3 && coded(err)   // label: malformed-is-invalid-argument
+
+//@ func (*connectHandler).SetTimeout(h, request) (ctx, cancel, err)
+//@   tags C10, C07
+//@   requires request != nil
+//@   ensures let v := hget(request.Header, "Connect-Timeout-Ms") in v == "" ==> err == nil && ctx == reqctx(request) && cancel == nil    // label: absent-is-unbounded
+//@   ensures let v := hget(request.Header, "Connect-Timeout-Ms") in isNum10(v) && |v| <= 10 ==> err == nil && ctx == ctxWithTimeout(reqctx(request), val10(v) * 1000000)   // label: grammatical-honoured-exactly
+//@   ensures let v := hget(request.Header, "Connect-Timeout-Ms") in |v| > 10 || (v != "" && !isInt10(v)) ==> err != nil && coded(err) && codeOf(err) == 3   // label: malformed-is-invalid-argument
